@@ -29,8 +29,9 @@ CONSTANTS MaxLen,      \* payload length bound (symbols)
 Sym == {"a", "b", "q", "u", "r", "x", "y", "z"}
 Payloads == UNION {[1..n -> Sym] : n \in 0..MaxLen}
 
-\* toBuffer signs json.Marshal(string(payload)): every byte that is not valid UTF-8 becomes U+FFFD
-SignedSym(s) == IF s \in {"x", "y", "r"} THEN "FFFD" ELSE s
+\* toBuffer signs json.Marshal(string(payload)): every byte that is not valid UTF-8 is written as the
+\* escape \ufffd (a genuine U+FFFD character is written as its three bytes, so it stays distinct)
+SignedSym(s) == IF s \in {"x", "y"} THEN "FFFD-escape" ELSE s
 SignedPayload(p) == [i \in 1..Len(p) |-> SignedSym(p[i])]
 
 Links == {"c1", "c2", "c3"}
@@ -38,8 +39,10 @@ LinkSeqs == UNION {[1..n -> Links] : n \in 0..2}
 
 \* an abstract entry: every part the signature is supposed to cover, plus key and sig
 Entries ==
-  [payload : Payloads, id : {"X"}, next : {<<>>, <<"c1">>, <<"c1", "c2">>}, refs : {<<>>, <<"c3">>},
-   v : {2}, cid : {"k1"}, ct : {5}, key : {"k1"}]
+  \* every payload with fixed links, and every link shape with a fixed payload
+  [payload : Payloads, id : {"X"}, next : {<<"c1">>}, refs : {<<"c3">>}, v : {2}, cid : {"k1"}, ct : {5}, key : {"k1"}]
+  \cup [payload : {<<"a", "u">>}, id : {"X"}, next : {<<>>, <<"c1">>, <<"c1", "c2">>}, refs : {<<>>, <<"c3">>, <<"c3", "c1">>},
+         v : {2}, cid : {"k1"}, ct : {5}, key : {"k1"}]
 
 SignedView(e) ==
   [payload |-> SignedPayload(e.payload), id |-> e.id, next |-> e.next, refs |-> e.refs, v |-> e.v,
